@@ -79,6 +79,35 @@ def protein_only(text):
     return "\n".join(ln for ln in text.splitlines() if not ln.startswith("HETATM")) + "\n"
 
 
+def shared_proton(htext):
+    """A supplied hydrogen moved halfway between its donor nitrogen and a carboxylate / hydroxyl oxygen of another residue
+    2.5-2.8 A away (the proton of a very short hydrogen bond: closer than the X-H bond criterion to both). None if the
+    structure has no such pair."""
+    lines = htext.splitlines()
+    atoms = [(i, pdbio.parse_line(ln), ln) for i, ln in enumerate(lines) if C.is_atom(ln)]
+    heavy = [a for a in atoms if a[2][76:78].strip() != "H"]
+    best = None
+    for i, h, ln in atoms:
+        if ln[76:78].strip() != "H":
+            continue
+        d = min(heavy, key=lambda a: (a[1].x - h.x) ** 2 + (a[1].y - h.y) ** 2 + (a[1].z - h.z) ** 2)
+        if d[2][76:78].strip() != "N":
+            continue
+        for a in heavy:
+            if a[2][12:16].strip() not in ("OD1", "OD2", "OE1", "OE2") or C.resid(a[2]) == C.resid(d[2]):
+                continue
+            dd = ((a[1].x - d[1].x) ** 2 + (a[1].y - d[1].y) ** 2 + (a[1].z - d[1].z) ** 2) ** 0.5
+            ha = ((a[1].x - h.x) ** 2 + (a[1].y - h.y) ** 2 + (a[1].z - h.z) ** 2) ** 0.5
+            if 2500 < dd < 2800 and (best is None or ha < best[0]):
+                best = (ha, i, d[1], a[1])
+    if best is None:
+        return None
+    _, i, d, a = best
+    # 47 % of the way: nearer to the donor, within the X-H criterion (1.5 A) of both for a separation up to 2.83 A
+    lines[i] = pdbio.set_xyz(lines[i], *[(53 * p_ + 47 * q_) // 100 for p_, q_ in ((d.x, a.x), (d.y, a.y), (d.z, a.z))])
+    return "\n".join(lines) + "\n"
+
+
 def structures(ctx):
     prot = [("1HPX-protein", protein_only(C.test_pdb_text("1HPX"))), ("frag-3SGB-E0+40", C.fragment("3SGB", "E", 0, 40))]
     # incomplete residues: side chains modelled up to the defining atom only (fallback code paths use the group centre)
@@ -244,9 +273,19 @@ def run(ctx):
                 ctx.nontriv((name, (1, 2, 3), (1, 1, 1), t, "fine-x"))
                 rels.append(relations.relate("SameHeavy", base, text, rb, mt, T=T, with_bonds=True, with_hyd=False,
                                              meta=dict(meta, clause="a")))
-    # clause (b): supplied hydrogens
-    for si, (name, text) in enumerate(prot):
-        htext = c07.with_own_hydrogens(text)
+    # clause (b): supplied hydrogens; one structure also with the proton of a very short hydrogen bond (a supplied hydrogen
+    # within the X-H criterion of two heavy atoms), moved in quarter-cell steps along each axis besides the lattice motions
+    quarter = [{"p": [1, 2, 3], "s": [1, 1, 1], "tvec": tuple(sh if ax == k else 0 for k in range(3))}
+               for ax in range(3) for sh in (628, 1255, 1883)]
+    prot_b = [(n_, t_, None) for n_, t_ in prot]
+    for n_, t_ in prot:
+        if n_ == "frag-3SGB-E0+40":
+            hs_ = c07.with_own_hydrogens(t_)
+            sp_ = shared_proton(hs_) if hs_ else None
+            if sp_:
+                prot_b.append((n_ + "+shared-proton", t_, sp_))
+    for si, (name, text, given) in enumerate(prot_b):
+        htext = given or c07.with_own_hydrogens(text)
         if not htext or knife_edge(htext):
             skipped += 1
             continue
@@ -255,8 +294,8 @@ def run(ctx):
         if base.exc is not None:
             ctx.violation(f"run:exception:{name}:-k", repr(base.exc), {"pdb": htext, "optargs": ["-k"]})
             continue
-        for m in pick(nper["b"], si + 5 + ctx.seed):
-            t = translation_for(htext, m["p"], m["s"], m["t"])
+        for m in pick(nper["b"], si + 5 + ctx.seed) + (quarter if given else []):
+            t = m["tvec"] if "tvec" in m else translation_for(htext, m["p"], m["s"], m["t"])
             mt = move_text(htext, m["p"], m["s"], t)
             R = rot_fn(m["p"], m["s"])
             T = lambda v, R=R, t=t: tuple(a + b for a, b in zip(R(v), t))  # noqa
